@@ -69,6 +69,13 @@ class VCGen(SpecMixin, CallMixin, StmtMixin, ExprMixin, Engine):
                 facts.append(self.allocated_fact(st, ty.cls, v.z))
             if isinstance(ty, (TDict, TSet)):
                 facts += self.dict_wf(v)
+            if ty == VAL:
+                # a JSON container handed in as an argument exists already: it is not the object a later
+                # `{}` / `[]` / .copy() allocates
+                oa, _, _ = self.heap_arrays(st, '$vobj', '$alloc')
+                la, _, _ = self.heap_arrays(st, '$vlist', '$alloc')
+                facts.append(z3.Implies(Val.is_VObj(v.z), z3.Select(oa[0], Val.vo(v.z))))
+                facts.append(z3.Implies(Val.is_VList(v.z), z3.Select(la[0], Val.vl(v.z))))
         if a.vararg is not None:
             ty = c.params.get(a.vararg.arg)
             st.env[a.vararg.arg] = named(ty, 'in.' + a.vararg.arg) if ty else mk_py(('opaque', 'varargs'))
